@@ -245,7 +245,7 @@ theorem atom_of_fits (hc : TableConsistent T L) {a : Skel} (hw : a.WF T L) (h : 
     have h1 := rowLevel_lt_un hc hw.1 hw.2.1
     have := h.2; simp only [Skel.cls, clsLevel] at this; omega
 
-theorem good_atom (s : String) : Good T L uni (.atom s) := by
+theorem good_atom (s : List Nat) : Good T L uni (.atom s) := by
   have hown : ∀ rest f, levelsFrom T L (parseAt T L f) [] L.n (printSkel T L uni (.atom s) ++ rest)
       = appLoop L (parseAt T L f) (rest.length + 1) (.atom s) rest := by
     intro rest f
@@ -380,7 +380,7 @@ theorem good_un (hc : TableConsistent T L) {o : Nat} {a : Skel} (ho : o < T.ops.
   · intro rest fu hle
     rw [hlv] at hle; omega
 
-theorem good_binder (hc : TableConsistent T L) {b : Nat} {x : String} {body : Skel} (hb : b < L.binders.length)
+theorem good_binder (hc : TableConsistent T L) {b : Nat} {x : List Nat} {body : Skel} (hb : b < L.binders.length)
     (ihb : Good T L uni body) : Good T L uni (.binder b x body) := by
   have hidx := binder_idx hc uni hb
   have hD : ∀ k rest, k < L.n → headPre L k (printSkel T L uni (.binder b x body) ++ rest) = false := by
